@@ -26,23 +26,77 @@ class _Node:
 
 
 def make_nodes(rng, n, kind):
+    """node specs (kind, payload); 'obj' = identity-hashed object carrying the payload"""
     if kind == 'int':
-        return rng.sample(range(-5, 60), n)
+        return [('val', v) for v in rng.sample(range(-5, 60), n)]
     if kind == 'tuple2':
-        return rng.sample([(r, c) for r in range(-2, 9) for c in range(-2, 9)] + [(-9, -10), (-10, -9)], n)
+        return [('val', v) for v in rng.sample([(r, c) for r in range(-2, 9) for c in range(-2, 9)] + [(-9, -10), (-10, -9)], n)]
     if kind == 'tuple3':
-        return rng.sample([(la, r, c) for la in (0, 1) for r in range(6) for c in range(6)], n)
+        return [('val', v) for v in rng.sample([(la, r, c) for la in (0, 1) for r in range(6) for c in range(6)], n)]
     if kind == 'txy-bool':
-        return rng.sample([((t, x, y), b) for t in range(3) for x in range(-1, 4) for y in range(-1, 4)
-                           for b in (False, True)], n)
+        return [('val', v) for v in rng.sample([((t, x, y), b) for t in range(3) for x in range(-1, 4) for y in range(-1, 4)
+                                                for b in (False, True)], n)]
     if kind == 'identity':
-        return [_Node((rng.randint(0, 9), rng.randint(0, 9))) for _ in range(n)]
+        return [('obj', (rng.randint(0, 9), rng.randint(0, 9))) for _ in range(n)]
     if kind == 'identity-dup':  # all payloads equal: only object identity separates the nodes
         idx = (rng.randint(0, 3), -1)
-        return [_Node(idx) for _ in range(n)]
+        return [('obj', idx) for _ in range(n)]
     pool = [(r, c) for r in range(4) for c in range(4)] + [(0, r, c) for r in range(3) for c in range(3)] + \
            [((0, r, c), True) for r in range(3) for c in range(3)]
-    return rng.sample(pool, n)
+    return [('val', v) for v in rng.sample(pool, n)]
+
+
+def build_node(spec):
+    kind, payload = spec
+    if kind == 'obj':
+        return _Node(payload)
+    return payload
+
+
+def graph_job(job):
+    """worker: job = dict(nodes=[(kind, payload)], ops=[(ia, ib, w, fresh)], steps) -> run SimpleGraph + both entry points"""
+    import qecsim.graphtools as gt
+    objs = [build_node(sp) for sp in job['nodes']]
+
+    def obj(i, fresh):
+        o = objs[i]
+        if fresh and isinstance(o, tuple):
+            return tuple(list(o))        # an equal but distinct tuple object: must be the same node
+        return o
+    return execute_graph(gt, [(obj(a, f), obj(b, f), w) for a, b, w, f in job['ops']], job['steps'])
+
+
+def graph_jobs(jobs):
+    return [graph_job(j) for j in jobs]
+
+
+def execute_graph(gt, ops_nodes, steps):
+    ids = {}
+
+    def nid(x):
+        if x not in ids:
+            ids[x] = len(ids)
+        return ids[x]
+    g = gt.SimpleGraph()
+    prefixes = []
+    for a, b, w in ops_nodes:
+        g.add_edge(a, b, w)
+        if steps:
+            prefixes.append([((nid(x), nid(y)), v) for (x, y), v in g.items()])
+    ops = [(nid(a), nid(b), w) for a, b, w in ops_nodes]
+    items = [((nid(a), nid(b)), w) for (a, b), w in g.items()]
+    res = []
+    for fn in (gt.mwpm, gt.mwpm_networkx):
+        try:
+            m = fn(g)
+            if not isinstance(m, (set, frozenset)):
+                res.append('ERR type ' + type(m).__name__)
+            else:
+                res.append(sorted((nid(a), nid(b)) for a, b in m))
+        except Exception as e:  # noqa
+            res.append('ERR ' + type(e).__name__ + ': ' + str(e)[:80])
+    ev = [direct_eval(items, r) if isinstance(r, list) else direct_eval(items, []) for r in res]
+    return {'ops': ops, 'items': items, 'res': res, 'prefixes': prefixes, 'eval': ev}
 
 
 def make_weight(rng, kind):
@@ -69,27 +123,26 @@ def parse_q(s):
 
 
 def brute_min(nodes, w):
-    """independent minimum over all perfect matchings: DP over subsets; w[(i,j)] for i<j. None if there is none"""
+    """independent minimum over all perfect matchings: DP over subsets; w[(i,j)] (integers) for i<j. None if there is none"""
     n = len(nodes)
     if n % 2:
         return None
     full = (1 << n) - 1
-    best = {0: Fraction(0)}
+    best = {0: 0}
+    adj = [[(j, w[(i, j)]) for j in range(i + 1, n) if (i, j) in w] for i in range(n)]
     for mask in range(1, full + 1):
         if bin(mask).count('1') % 2:
             continue
         i = (mask & -mask).bit_length() - 1
         b = None
         rest = mask & ~(1 << i)
-        j = i + 1
-        while (1 << j) <= rest:
-            if rest >> j & 1 and (i, j) in w:
+        for j, wij in adj[i]:
+            if rest >> j & 1:
                 sub = best.get(rest & ~(1 << j))
                 if sub is not None:
-                    c = sub + w[(i, j)]
+                    c = sub + wij
                     if b is None or c < b:
                         b = c
-            j += 1
         if b is not None:
             best[mask] = b
     return best.get(full)
@@ -99,11 +152,16 @@ def direct_eval(items, matching):
     """the property's right-hand side evaluated in Python on the dict the matcher was given.
     items: [((ia, ib), weight)], matching: [(ia, ib)]. Returns (status, detail)"""
     w = {}
+    scale = 1
+    for _, x in items:
+        scale = max(scale, Fraction(x).denominator)     # weights are ints or dyadic floats: a power of two
     for (a, b), x in items:
         k = (min(a, b), max(a, b))
         if k in w or a == b:
             return 'reversed-duplicate', 'graph has the unordered pair %r twice (or a loop)' % (k,)
-        w[k] = Fraction(x)
+        f = Fraction(x) * scale
+        assert f.denominator == 1
+        w[k] = f.numerator
     nodes = sorted(set(x for k in w for x in k))
     pos = {x: i for i, x in enumerate(nodes)}
     wi = {(pos[a], pos[b]): x for (a, b), x in w.items()}
@@ -113,14 +171,14 @@ def direct_eval(items, matching):
     used = [x for p in matching for x in p]
     if sorted(used) != nodes:
         return 'not-perfect', 'matching %r does not cover every node exactly once' % (matching,)
-    tot = Fraction(0)
+    tot = 0
     for a, b in matching:
         k = (min(a, b), max(a, b))
         if k not in w:
             return 'not-perfect', 'pair %r is not an edge of the graph' % ((a, b),)
         tot += w[k]
     if tot != mn:
-        return 'not-minimum', 'weight %s but the minimum over perfect matchings is %s' % (tot, mn)
+        return 'not-minimum', 'weight %s but the minimum over perfect matchings is %s' % (Fraction(tot, scale), Fraction(mn, scale))
     return 'ok', None
 
 
@@ -146,38 +204,17 @@ def run(ctx):
                          'path (mwpm -> mwpm_networkx) runs; weight_to_int_fn scaling not compared')
     ctx.hist['blossom5-skipped'] += 1
 
-    cases = []   # dict(ops, items, match1, match2, meta)
+    cases = []   # dict(ops, items, res, prefixes, meta)
+    pjobs, pmeta = [], []
 
     def run_graph(ops_nodes, meta):
-        """ops_nodes: [(node_a, node_b, weight)] inserted in this order through SimpleGraph.add_edge"""
-        ids = {}
-
-        def nid(x):
-            if x not in ids:
-                ids[x] = len(ids)
-            return ids[x]
-        g = gt.SimpleGraph()
-        prefixes = []
-        for a, b, w in ops_nodes:
-            g.add_edge(a, b, w)
-            if meta.get('steps'):
-                prefixes.append([((nid(x), nid(y)), v) for (x, y), v in g.items()])
-        ops = [(nid(a), nid(b), w) for a, b, w in ops_nodes]
-        items = [((nid(a), nid(b)), w) for (a, b), w in g.items()]
-        res = []
-        for fn in (gt.mwpm, gt.mwpm_networkx):
-            try:
-                m = fn(g)
-                if not isinstance(m, (set, frozenset)):
-                    res.append('ERR type ' + type(m).__name__)
-                else:
-                    res.append(sorted((nid(a), nid(b)) for a, b in m))
-            except Exception as e:  # noqa
-                res.append('ERR ' + type(e).__name__ + ': ' + str(e)[:80])
-        cases.append({'ops': ops, 'items': items, 'res': res, 'meta': meta, 'prefixes': prefixes})
+        """in-process run (graphs recorded from decoders: arbitrary node objects)"""
+        c = execute_graph(gt, ops_nodes, meta.get('steps'))
+        c['meta'] = meta
+        cases.append(c)
 
     # ---- 1. generated graphs --------------------------------------------------------------
-    ngraphs = ctx.pick(3200, 24000)
+    ngraphs = ctx.pick(8000, 40000)
     for it in range(ngraphs):
         n = rng.randint(2, nmax)
         if n > 10 and rng.random() < 0.6:
@@ -202,7 +239,7 @@ def run(ctx):
         for a, b in edges:
             if rng.random() < 0.5:
                 a, b = b, a
-            ops.append((nodes[a], nodes[b], make_weight(rng, wk)))
+            ops.append((a, b, make_weight(rng, wk)))
         # re-insertions: reversed with a new weight, same orientation with a new weight
         reins = rng.choice([0, 0, 1, 2, 4])
         for _ in range(reins):
@@ -212,17 +249,24 @@ def run(ctx):
             if rng.random() < 0.7:
                 a, b = b, a
             ops.insert(rng.randint(0, len(ops)), (a, b, make_weight(rng, wk)))
-        if it % 50 == 0:   # equal-but-distinct tuple objects must be one node
-            ops = [(tuple(list(a)) if isinstance(a, tuple) else a, b, w) for a, b, w in ops]
-        run_graph(ops, {'kind': 'gen', 'n': n, 'nodes': nk, 'weights': wk, 'density': dens, 'reins': reins,
-                        'steps': it % 10 == 0})
+        fresh = it % 50 == 0   # equal-but-distinct tuple objects must be one node
+        pjobs.append({'nodes': nodes, 'ops': [(a, b, w, fresh) for a, b, w in ops], 'steps': it % 10 == 0})
+        pmeta.append({'kind': 'gen', 'n': n, 'nodes': nk, 'weights': wk, 'density': dens, 'reins': reins,
+                      'steps': it % 10 == 0})
 
     # ---- 2. all graphs on 4 labelled nodes, weights from a small set (exhaustive) ------------
     wset = ctx.pick([None, 0, 1], [None, -1, 0, 1, 2.5])
     pairs4 = list(itertools.combinations(range(4), 2))
     for ws in itertools.product(wset, repeat=6):
-        ops = [(a, b, w) if (a + b + len(ws)) % 2 else (b, a, w) for (a, b), w in zip(pairs4, ws) if w is not None]
-        run_graph(ops, {'kind': 'exhaustive-4', 'n': 4, 'nodes': 'int', 'weights': 'set', 'density': 0, 'reins': 0})
+        ops = [(a, b, w, False) if (a + b + len(ws)) % 2 else (b, a, w, False) for (a, b), w in zip(pairs4, ws) if w is not None]
+        pjobs.append({'nodes': [('val', i) for i in range(4)], 'ops': ops, 'steps': False})
+        pmeta.append({'kind': 'exhaustive-4', 'n': 4, 'nodes': 'int', 'weights': 'set', 'density': 0, 'reins': 0})
+    from harness import decoder_zoo as zoo
+    chunked = list(zoo.chunks(pjobs, 100))
+    for chunk_res, chunk_meta in zip(zoo.run_pool(graph_jobs, chunked), zoo.chunks(pmeta, 100)):
+        for c, m_ in zip(chunk_res, chunk_meta):
+            c['meta'] = m_
+            cases.append(c)
 
     # ---- 3. decoder-shaped graphs recorded from real decodes ----------------------------------
     recorded = []
@@ -300,13 +344,16 @@ def run(ctx):
             c['i_steps'] = len(req)
             req.append('build_steps ' + (';'.join('%d:%d:%s' % (a, b, frac(w)) for a, b, w in c['ops']) or '-'))
         c['i_chk'] = []
-        for r in c['res']:
+        for wi, r in enumerate(c['res']):
             if isinstance(r, list):
+                if wi == 1 and c['res'][0] == r:
+                    c['i_chk'].append(c['i_chk'][0])
+                    continue
                 c['i_chk'].append(len(req))
                 req.append('check %s %s' % (gline(c['items']), mline(r)))
             else:
                 c['i_chk'].append(None)
-    out = ctx.model('c13', req, timeout=1500)
+    out = zoo.model_parallel(ctx, 'c13', req)
 
     def canon_graph(s):
         if s == '-':
@@ -348,7 +395,7 @@ def run(ctx):
             fname = ('mwpm', 'mwpm_networkx')[which]
             if not isinstance(r, list):
                 # an exception or a non-set: decide via the model whether the graph is in the property's domain
-                st, _ = direct_eval(c['items'], [])
+                st, _ = c['eval'][which]
                 ctx.count(None, False, kind + '/raised')
                 if st != 'no-pm':
                     ctx.violation('raised', '%s raised / returned a non-set on a graph with a perfect matching: %s'
@@ -356,7 +403,7 @@ def run(ctx):
                 continue
             f = dict(t.split('=') for t in out[ic].split(' '))
             npm = int(f['npm'])
-            st, detail = direct_eval(c['items'], r)
+            st, detail = c['eval'][which]
             key = (tuple(c['ops'][:40]), which)
             if npm == 0:
                 ctx.count(key, False, kind + '/no-perfect-matching(skipped)')
